@@ -259,8 +259,15 @@ Proof.
    apply errs_in_bind; [apply Hop|intro; exact I]).
 Qed.
 
+Lemma dec_div_errs a b : errs_in LM (dec_div a b).
+Proof. destruct a, b; reflexivity || exact I. Qed.
+
 Lemma divided_by_errs n o : errs_in LM (divided_by n o).
-Proof. cbv beta delta [divided_by errs_in LM isM intlike num_too_big num_is_zero]. brk. Qed.
+Proof.
+  unfold divided_by. destruct (intlike n), (intlike o); try (destruct (_ =? 0); reflexivity || exact I);
+  (apply errs_in_bind; [apply num_str_errs|intro]; apply errs_in_bind; [apply num_str_errs|intro];
+   destruct (dec_div_by_zero _ _); [reflexivity|]; apply errs_in_bind; [apply dec_div_errs|intro; exact I]).
+Qed.
 
 Lemma modulo_errs i n o : errs_in LM (modulo i n o).
 Proof.
@@ -741,8 +748,7 @@ Definition repair_witnesses : list (nat * (bool * site * prims * value * list va
   (1%nat, (false, SCeil, p_plain, VStr (SFloat FNan) 3, []));                           (* the text nan | ceil -> ValueError *)
   (1%nat, (false, SFloor, p_plain, VFloat FPInf, []));                                  (* inf | floor -> OverflowError *)
   (1%nat, (false, SModulo, p_plain, VFloat (FFin 1), [VInt 0]));                        (* 1.5 | modulo: 0 -> decimal.InvalidOperation *)
-  (1%nat, (false, SPlus, p_plain, VBool true, [VFloat (FFin 1)]));                      (* true | plus: 1.5 *)
-  (1%nat, (false, SDividedBy, p_plain, VInt float_bound, [VFloat (FFin 1)]));           (* int too large for a float *)
+  (1%nat, (false, SDividedBy, p_plain, VFloat FPInf, [VFloat FPInf]));                  (* inf / inf -> decimal.InvalidOperation *)
   (2%nat, (false, SSum, p_plain, VList [txt 1 3], []));                                 (* a non-numeric text in sum *)
   (2%nat, (false, SSum, p_plain, VList [VFloat FPInf; VFloat FNInf], []));              (* inf + -inf *)
   (3%nat, (false, SRangeLit, p_plain, VNone, [VInt 2]));                                (* (nil..2) -> TypeError *)
